@@ -2780,7 +2780,8 @@ impl<'store> QueryIter<'store> {
                 Box::new(iter.filter_text_byref(text, true, " "))
             }
             &Constraint::Text(text, TextMode::CaseInsensitive) => {
-                Box::new(iter.filter_text_byref(text, false, " "))
+                //(the by-reference variant expects an already lower-cased text)
+                Box::new(iter.filter_text(text.to_string(), false, " "))
             }
             Constraint::Regex(regex) => Box::new(iter.filter_text_regex(regex.clone(), " ")),
             &Constraint::TextVariable(var) => {
@@ -3433,7 +3434,8 @@ impl<'store> QueryIter<'store> {
                 Box::new(iter.filter_text_byref(text, true))
             }
             &Constraint::Text(text, TextMode::CaseInsensitive) => {
-                Box::new(iter.filter_text_byref(text, false))
+                //(the by-reference variant expects an already lower-cased text)
+                Box::new(iter.filter_text(text.to_string(), false))
             }
             Constraint::Regex(regex) => Box::new(iter.filter_text_regex(regex.clone())),
             &Constraint::TextRelation { var, operator } => {
